@@ -81,6 +81,7 @@ def oracle(lines, blocks, drained=False):
     last_seq = 0
     last_iter_step = None
     last_iter_clock = None
+    prev_fd = None          # state of the timer descriptor after the previous step (`r` = readable)
 
     def fail(kind, msg):
         fails.append((kind, msg))
@@ -266,6 +267,19 @@ def oracle(lines, blocks, drained=False):
         st = next((l for l in blk if l.startswith("st ")), None)
         if st is not None:
             kv = dict(x.split("=", 1) for x in st.split()[1:])
+            # drained: an iteration that was woken by the (level-triggered) timer descriptor must read it.  The
+            # descriptor was readable when this iteration polled; if it is readable again afterwards, an alarm set
+            # during this very iteration must have expired (clock jitter) - otherwise every coming poll returns at
+            # once although nothing is due: the idle loop spins
+            if w[0] == "iter" and prev_fd == "r" and kv["fd"] == "r":
+                arms = [l.split() for l in blk if l.startswith("arm ")]
+                refired = bool(arms) and arms[-1][1] != "off" and int(arms[-1][3]) + int(arms[-1][1]) // 1000 <= end_clock
+                if not refired:
+                    pend = sorted(t.name for t in timers.values() if t.registered and not t.dead and (t.rep or t.runs == 0))
+                    fail("timerfd-not-drained", "step %d `%s`: the timer descriptor was readable before this iteration and is still readable after "
+                         "it although no alarm was set and reached in between (pending timers: %s): handleRead did not read it, "
+                         "every coming poll returns immediately - the loop spins instead of blocking" % (i, op, pend or "none"))
+            prev_fd = kv["fd"]
             pend = [t for t in timers.values() if t.registered and not t.dead and not t.inflight and (t.rep or t.runs == 0)]
             if pend and kv["fd"] != "r":
                 earliest = min(t.hi for t in pend)
@@ -496,6 +510,58 @@ def gen_case(rng, size, profile="c06", park=False):
     return lines
 
 
+def gen_cancel_all(rng):
+    """histories in which every pending timer is cancelled from outside a callback (loop thread between two
+    iterations, or a foreign thread) while the timerfd is still armed for it; then the old expiry passes and the loop
+    runs a few iterations with nothing due (the descriptor must be drained, the loop must not spin); then life goes on"""
+    lines = []
+    off = 0
+    nxt, mk = 1, 1
+    for rnd in range(rng.choice([1, 1, 2, 3])):
+        names, far = [], 0
+        for _ in range(rng.choice([1, 1, 2, 3])):
+            d = rng.choice([100, 150, 500, 1000, 5000, 20000])
+            who = rng.choice(["L", "L", "F"])
+            mode = rng.choice(["at %d" % (off + d), "after %d" % d, "every %d" % d])
+            lines.append("add %s %d %s" % (who, nxt, mode))
+            names.append((nxt, who))
+            far = max(far, d)
+            nxt += 1
+        registered = False
+        if rng.random() < 0.6:
+            lines.append("iter")
+            registered = True
+        if rng.random() < 0.3:
+            a = rng.choice([0, 1, 50, 99])
+            lines.append("advance %d" % a)
+            off += a
+        keep = rng.random() < 0.15           # sometimes one survives: the descriptor fires for a real reason
+        for k, (n, who) in enumerate(names):
+            if keep and k == 0:
+                continue
+            cw = "F" if (who == "F" and not registered) else rng.choice(["L", "F"])
+            lines.append("cancel %s %d %d" % (cw, n, mk))
+            mk += 1
+            if cw == "F" and rng.random() < 0.5:
+                lines.append("iter")
+                registered = True
+        if rng.random() < 0.3:
+            lines.append("iter")
+        a = far + rng.choice([0, 1, 100, 101, 1000])
+        lines.append("advance %d" % a)
+        off += a
+        lines += ["iter"] * rng.choice([2, 3])
+        if rng.random() < 0.5:
+            a = rng.choice([0, 100, 1000])
+            lines.append("advance %d" % a)
+            off += a
+            lines.append("iter")
+    lines.append("tick 0")
+    for _ in range(DRAIN_ROUNDS):
+        lines += ["advance %d" % DRAIN, "iter", "iter"]
+    return lines
+
+
 # ----------------------------------------------------------------------------- running
 KINDS_C06 = ("early", "twice", "order", "disarmed", "late-arm", "lost", "floor", "thread")
 KINDS_C07 = ("after-cancel", "identity", "crash")
@@ -512,7 +578,7 @@ class Runner:
     def stop(self):
         """one violation that is not a known finding (or two disagreements) ends the exploration"""
         real = [1 for c, kind, d in self.ctx.oracle_failures if self.prop.signature(c, kind, d) not in self.known]
-        return len(real) >= 1 or len(self.ctx.mismatches) >= 2
+        return len(real) >= 1 or len(self.ctx.mismatches) >= (6 if self.ctx.search_mode else 2)
 
     def one(self, exe, lines, drained):
         case = Case("timer", lines)
@@ -608,6 +674,14 @@ def correspondence(prop, ctx, replay, profile):
     for fl in flavours:
         exe = ctx.exe("timer_drv", fl)
         r.corpus(exe, prop.id, fl)
+        if r.stop():
+            return
+    # every pending timer cancelled from outside a callback while the descriptor is armed (first when searching)
+    for fl in flavours[:1] if quick else flavours:
+        exe = ctx.exe("timer_drv", fl)
+        cases = [gen_cancel_all(ctx.rng) for _ in range(40 if quick else 300)]
+        ctx.count("cancel_all_cases", len(cases))
+        r.run_cases(exe, cases, "cancel-all-then-expiry", drained=True, flavour=fl)
         if r.stop():
             return
     plan = {
